@@ -2,3 +2,4 @@ pub mod prog;
 pub mod refint;
 pub mod textgen;
 pub mod sumgen;
+pub mod shadow;
